@@ -69,6 +69,9 @@ def _must_be_kwarg(signatures, positional_count, used_kwargs):
 def filter_names(inference_state, completion_names, stack, like_name, fuzzy,
                  imported_names, cached_name):
     comp_dct = set()
+    # The length has to be taken before lowering: `'İ'.lower()` is two code
+    # points long.
+    like_name_length = len(like_name)
     if settings.case_insensitive_completion:
         like_name = like_name.lower()
     for name in completion_names:
@@ -82,7 +85,7 @@ def filter_names(inference_state, completion_names, stack, like_name, fuzzy,
                 inference_state,
                 name,
                 stack,
-                len(like_name),
+                like_name_length,
                 is_fuzzy=fuzzy,
                 cached_name=cached_name,
             )
